@@ -1,5 +1,5 @@
 (* per-case verdict for C18: model vs implementation, and the Spec oracle on the implementation's
-   own observation.  Also cross-checks the harness: the finding-class flags computed in Python and
+   own observation.  Also cross-checks the harness: the finding-class flag computed in Python and
    the final SocksPort configuration of the scripted Tor must equal what Spec/C18.v derives from
    the observed SETCONF lines. *)
 From Coq Require Import List Bool Ascii NArith String.
@@ -10,7 +10,7 @@ Open Scope N_scope.
 Record case := { k_scn : scenario;
                  k_picks : list endpoint;     (* resolution hints for the model (the endpoints the implementation returned) *)
                  k_obs : observation;
-                 k_flags : list bool;         (* harness's evaluation of the finding predicates *)
+                 k_flag : bool;               (* harness's evaluation of the finding predicate (C18-F4) *)
                  k_final : reply }.           (* SocksPort of the scripted Tor after the history *)
 
 Definition outcome_eqb (a b : outcome) : bool :=
@@ -39,7 +39,7 @@ Definition check (k : case) : verdict :=
     match k_scn k, k_obs k with
     | SHist t ops, BHist obs =>
         list_eqb opobs_eqb (run t ops (k_picks k)) obs
-        && list_eqb Bool.eqb (flags t false ops obs) (k_flags k)
+        && Bool.eqb (flagged t ops obs) (k_flag k)
         && reply_eqb (sp (final_tor t ops obs)) (k_final k)
     | SClient g outs, BClient c => cobs_eqb (client_run g outs) c
     | _, _ => false
